@@ -23,6 +23,7 @@ import (
 	"net/http"
 	"net/http/httputil"
 	"net/url"
+	"slices"
 	"time"
 
 	"github.com/rs/zerolog"
@@ -129,9 +130,10 @@ func (r *requestContext) rewriteRequest(targetURL *url.URL) func(req *httputil.P
 		proxyReq.Out.Header.Del("X-Forwarded-Uri")
 		proxyReq.Out.Header.Del("X-Forwarded-Path")
 
+		// a header can have multiple values. All of them replace the values sent by the client
 		uh := r.UpstreamHeaders()
-		for k := range uh {
-			proxyReq.Out.Header.Set(k, uh.Get(k))
+		for k, values := range uh {
+			proxyReq.Out.Header[k] = slices.Clone(values)
 		}
 
 		if host := uh.Get("Host"); len(host) != 0 {
